@@ -9,6 +9,7 @@ use crate::sched;
 use crate::world::*;
 use std::marker::PhantomData;
 
+#[derive(Clone, Copy)]
 pub struct LifeCfg {
     /// the prefix runs exactly pre_send sends and pre_recv receives (a concrete resting state: the
     /// heavy scenarios cannot afford the symbolic one)
@@ -536,10 +537,23 @@ impl<F: Fl, const KIND: u8> Prog for Rem2<F, KIND> {
     }
 }
 
+/// forced-site loop (DESIGN.md 4): the second list change runs ALWAYS at the k-th shared-memory operation of the
+/// first one (actor 1, the outer one), k = LO..=HI, optionally followed there by the producer's send
+pub fn remove_race_sites<F: Fl, const KIND: u8, const LO: u16, const HI: u16>(c: &LifeCfg) {
+    let mut k: u16 = LO;
+    while k <= HI {
+        remove_race::<F, KIND, 1>(&LifeCfg { force_site: k, ..*c });
+        k += 1;
+    }
+}
+
 pub fn remove_race<F: Fl, const KIND: u8, const OUTER: usize>(c: &LifeCfg) {
     ledger::reset();
     payload::reset();
     sched::configure(c.depth, c.budget, c.kinds, c.per_site);
+    if c.force_site != 0 {
+        sched::force(c.force_site, 1, [2, 1, 1, 1]);
+    }
     let mut w = World::<F>::new(c.cap);
     set_world::<F>(&mut *w);
     if KIND == 3 {
@@ -583,6 +597,10 @@ pub fn remove_race<F: Fl, const KIND: u8, const OUTER: usize>(c: &LifeCfg) {
     }
     run_concurrent::<Rem2<F, KIND>, OUTER>();
     kani::cover!(sched::st().injected > 0, "an operation ran at a preemption point");
+    kani::cover!(
+        c.force_site == 0 || sched::st().site_no < c.force_site,
+        "not in forced-site mode, or the forced site lies past the end of the outer operation"
+    );
     if KIND == 4 {
         finish::<F>(&Finish {
             n: c.n,
@@ -894,6 +912,14 @@ life!(c11_bc_addrace_o1, hk_c11_bc_addrace_o1, Runner<Rem2<BcB, 2>, 1>, remove_r
 life!(c11_bc_addrace_o2, hk_c11_bc_addrace_o2, Runner<Rem2<BcB, 2>, 2>, remove_race::<BcB, 2, 2>(&LR));
 life!(c11_bc_bothhandles_o1, hk_c11_bc_bothhandles_o1, Runner<Rem2<BcB, 4>, 1>, remove_race::<BcB, 4, 1>(&LR));
 life!(c10_bc_addadd_o1, hk_c10_bc_addadd_o1, Runner<Rem2<BcB, 3>, 1>, remove_race::<BcB, 3, 1>(&LifeCfg { pre_recv: 0, ..LR }));
+life!(c11_bc_droprace_sites, hk_c11_bc_droprace_sites, Runner<Rem2<BcB, 1>, 1>, remove_race_sites::<BcB, 1, 1, 6>(&LifeCfg { per_site: 2, pre_recv: 1, ..LR }));
+life!(c11_bc_droprace_sitesq, hk_c11_bc_droprace_sitesq, Runner<Rem2<BcB, 1>, 1>, remove_race_sites::<BcB, 1, 1, 8>(&LifeCfg { per_site: 1, budget: 1, pre_recv: 1, ..LR }));
+life!(c11_bc_addrace_sites, hk_c11_bc_addrace_sites, Runner<Rem2<BcB, 2>, 1>, remove_race_sites::<BcB, 2, 1, 6>(&LifeCfg { per_site: 2, pre_recv: 1, ..LR }));
+life!(c11_bc_addrace_sitesq, hk_c11_bc_addrace_sitesq, Runner<Rem2<BcB, 2>, 1>, remove_race_sites::<BcB, 2, 1, 8>(&LifeCfg { per_site: 1, budget: 1, pre_recv: 1, ..LR }));
+life!(c10_bc_addadd_sites, hk_c10_bc_addadd_sites, Runner<Rem2<BcB, 3>, 1>, remove_race_sites::<BcB, 3, 1, 6>(&LifeCfg { per_site: 2, pre_recv: 0, ..LR }));
+life!(c10_bc_addadd_sitesq, hk_c10_bc_addadd_sitesq, Runner<Rem2<BcB, 3>, 1>, remove_race_sites::<BcB, 3, 1, 8>(&LifeCfg { per_site: 1, budget: 1, pre_recv: 0, ..LR }));
+life!(c11_bc_bothhandles_sites, hk_c11_bc_bothhandles_sites, Runner<Rem2<BcB, 4>, 1>, remove_race_sites::<BcB, 4, 1, 6>(&LifeCfg { per_site: 2, pre_recv: 1, ..LR }));
+life!(c11_bc_bothhandles_sitesq, hk_c11_bc_bothhandles_sitesq, Runner<Rem2<BcB, 4>, 1>, remove_race_sites::<BcB, 4, 1, 8>(&LifeCfg { per_site: 1, budget: 1, pre_recv: 1, ..LR }));
 // C12
 life!(c12_mp_senders_o0, hk_c12_mp_senders_o0, Runner<Churn<MpB, 1>, 0>, churn::<MpB, 1, 0>(&LifeCfg { pre_send: 1, pre_recv: 1, per_site: 1, ..LQ }));
 life!(c12_bc_senders_o0, hk_c12_bc_senders_o0, Runner<Churn<BcB, 1>, 0>, churn::<BcB, 1, 0>(&LifeCfg { pre_send: 1, pre_recv: 1, per_site: 1, ..LQ }));
